@@ -180,7 +180,7 @@ def run_case(case, vector):
     import vector.backends.numpy as vnp
 
     viol = []
-    stats = {"steps": 0, "raised": 0, "natural_exc": {}, "faults_planned": 0, "faults_fired": {"lib": 0, "flt": 0},
+    stats = {"steps": 0, "raised": 0, "natural_exc": {}, "faults_planned": 0, "faults_fired": {"lib": 0, "flt": 0, "alloc": 0},
              "states": set(), "arrays": 0, "alias_pairs": 0, "writes": 0, "restarts": 0}
     gn = case["gnames"]
     dim = len(gn)
